@@ -158,11 +158,14 @@ static enum bufferevent_filter_result
 be_null_filter(struct evbuffer *src, struct evbuffer *dst, ev_ssize_t lim,
 	       enum bufferevent_flush_mode state, void *ctx)
 {
+	int n;
 	(void)state;
-	if (evbuffer_remove_buffer(src, dst, lim) >= 0)
+	n = evbuffer_remove_buffer(src, dst, lim);
+	if (n > 0)
 		return BEV_OK;
-	else
-		return BEV_ERROR;
+	/* nothing there to move: say so, or callers take an empty pass for
+	 * progress (and run the user's read callback with no data) */
+	return n == 0 ? BEV_NEED_MORE : BEV_ERROR;
 }
 
 struct bufferevent *
@@ -616,8 +619,11 @@ be_filter_flush(struct bufferevent *bufev,
 
 	if (iotype & EV_READ) {
 		int processed_in = 0;
+		const size_t had = evbuffer_get_length(bufev->input);
 		be_filter_process_input(bevf, mode, &processed_in);
-		if (processed_in) {
+		/* (only when something arrived: a read callback that flushes
+		 * must not be run again by its own flush for nothing) */
+		if (processed_in && evbuffer_get_length(bufev->input) > had) {
 			/* tell whoever reads from us (maybe another filter) */
 			processed_any = 1;
 			bufferevent_trigger_nolock_(bufev, EV_READ, 0);
